@@ -125,7 +125,24 @@ def clauses (prop : String) (inst : Instance) (es : List Ev) (outs : List EvOut)
     let published := es.filterMap fun | .signal p => some (sendPacket p) | _ => none
     let sigFrames := (wf.filter (fun f => !isInst f)).map Frame.bytes
     let everStream := (fs.filterMap validUpgrade).any isStream
+    -- a session never ends because of what is published to it (a lagging subscriber skips, it is not dropped)
+    let endedBySignal := (es.zip outs).any fun (e, o) => o.ended != "0" && !(isEnder e) &&
+      !((es.takeWhile (fun x => x != e)).any isEnder)
+    -- streaming from its first frame to the end, idle at the end: the newest published signal has been delivered
+    let streamsThroughout := !es.any isEnder && leftover.isEmpty &&
+      (match fs.head? with | some f => (validUpgrade f).any isStream | none => false) &&
+      (fs.filterMap validUpgrade).all isStream &&
+      (match es.head? with | some (.signal _) => false | _ => true)
+    -- only signals published after the first (upgrade) frame has arrived completely are owed to the client
+    let firstLen := (fs.head?.map fun f => f.bytes.length).getD 0
+    let afterUpgrade := (es.foldl (fun (acc : Nat × List Ev) e =>
+        match e with
+        | .bytes b => (acc.1 + b.length, acc.2)
+        | _ => if acc.1 ≥ firstLen then (acc.1, acc.2 ++ [e]) else acc) (0, [])).2
+    let lastPublished := (afterUpgrade.filterMap fun | .signal p => if forwardable p then some (sendPacket p) else none | _ => none).getLast?
     [ ("no_panic", noPanic),
+      ("lagging_subscriber_is_not_dropped", !endedBySignal),
+      ("newest_signal_delivered", !streamsThroughout || lastPublished.isNone || sigFrames.getLast? == lastPublished),
       ("whole_frames", wleft.isEmpty),
       ("one_instance_per_upgrade", leftover.length ≥ 10 || (wf.filter isInst).length == nUpgrades),
       ("signals_subsequence_in_order", sigFrames.isSublist published),
